@@ -62,7 +62,15 @@ type c11GCInput struct {
 	MTB     uint32   `json:"mtb"`
 	Echidna uint32   `json:"echidna,omitempty"` // height of the Echidna hard fork (and of the later ones); 0 = from genesis
 	GCP     uint32   `json:"gcp,omitempty"`     // GarbageCollectionPeriod, 0 = 1
+	GMTB    uint32   `json:"gmtb,omitempty"`    // Genesis.MaxTraceableBlocks (what Policy is initialised with at Echidna), 0 = MTB
 	Ops     []string `json:"ops"`               // "b" empty block, "t" block with a GAS transfer, "s" block in which the committee lowers MaxTraceableBlocks by one, "p" flush the write cache, "g" GC half of a Run tick + crash check
+}
+
+func (in c11GCInput) gmtb() uint32 {
+	if in.GMTB == 0 {
+		return in.MTB
+	}
+	return in.GMTB
 }
 
 func (in c11GCInput) gcp() uint32 {
@@ -88,7 +96,7 @@ func c11ChainCfgIn(in c11GCInput) func(*config.Blockchain) {
 		}
 		c.RemoveUntraceableBlocks = true
 		c.MaxTraceableBlocks = in.MTB
-		c.Genesis.MaxTraceableBlocks = in.MTB
+		c.Genesis.MaxTraceableBlocks = in.gmtb()
 		c.MaxValidUntilBlockIncrement = 1
 		c.Genesis.MaxValidUntilBlockIncrement = 1
 		c.GarbageCollectionPeriod = in.gcp()
@@ -125,7 +133,7 @@ func c11RunGC(co *caseOut, in c11GCInput) {
 			co.violation(kind, note, in, impl)
 		}
 	}
-	if in.MTB < 1 || in.MTB > 16 {
+	if in.MTB < 1 || in.MTB > 16 || in.GMTB > in.MTB {
 		co.add(kind, "malformed", false, in, nil, "CGcRuns 0 []")
 		return
 	}
@@ -158,7 +166,9 @@ func c11RunGC(co *caseOut, in c11GCInput) {
 	noteMTB := func() {
 		h := bc.BlockHeight()
 		want := in.MTB
-		if h >= in.Echidna && h > 0 {
+		if h >= in.Echidna && h == 0 {
+			want = in.gmtb()
+		} else if h >= in.Echidna {
 			want = 0
 			bc.SeekStorage(policyID, []byte{23}, func(k, v []byte) bool {
 				if len(k) == 0 {
@@ -180,7 +190,7 @@ func c11RunGC(co *caseOut, in c11GCInput) {
 		}
 	}
 	noteMTB()
-	lowered, flushed := false, false
+	lowered, flushed, loweredInCache := false, false, false
 	for oi, op := range in.Ops {
 		if failed {
 			break
@@ -252,10 +262,15 @@ func c11RunGC(co *caseOut, in c11GCInput) {
 			if len(after) < len(before) {
 				collected = true
 			}
-			// the collector is entitled to the window length in force at the current height (MaxTraceableBlocks only
-			// ever decreases); the recovered node below is entitled to the one in force at the persisted height
+			// the running node is entitled to the window length in force at the current height; the collection works on
+			// the persistent store and has to respect the length in force on the PERSISTED chain, which is what a node
+			// restarted from that store promises (the two differ only when a block that lowers MaxTraceableBlocks is
+			// still in the write cache: F61)
 			mtbH, mtbP := mtbAt[H], mtbAt[p]
-			runs = append(runs, fmt.Sprintf("(%d, %d, %d, %s, %s)", p, oldPersisted, mtbH, c11CoqDump(ids, before), c11CoqDump(ids, after)))
+			if mtbH < mtbP {
+				loweredInCache = true
+			}
+			runs = append(runs, fmt.Sprintf("(%d, %d, %d, %s, %s)", p, oldPersisted, mtbP, c11CoqDump(ids, before), c11CoqDump(ids, after)))
 			oldPersisted = p // the next tick of Run reads the persisted height again before its own flush
 			// the running node: every traceable state readable
 			sm := bc.GetStateModule()
@@ -320,8 +335,12 @@ func c11RunGC(co *caseOut, in c11GCInput) {
 					break
 				}
 				if w := c11WalkRoot(d, sr.Root, false); w.problem != "" {
-					viol("after a crash the recovered node cannot read a state that is traceable for it: the garbage collector removed a node it needs",
-						map[string]any{"height": h, "persisted": p, "height_in_memory_at_gc": H, "mtb_at_persisted": mtbP, "mtb_at_current": mtbH, "echidna": in.Echidna, "problem": w.problem})
+					note := "after a crash the recovered node cannot read a state that is traceable for it: the garbage collector removed a node it needs"
+					if mtbH < mtbP && h+mtbH <= p {
+						// its own class (F61): only the part of the tail that the not yet persisted lowering cuts off
+						note = "lowered MaxTraceableBlocks used before the lowering block is persisted: after a crash the recovered node cannot read a state its own window still promises"
+					}
+					viol(note, map[string]any{"class_f61": mtbH < mtbP && h+mtbH <= p, "height": h, "persisted": p, "height_in_memory_at_gc": H, "mtb_at_persisted": mtbP, "mtb_at_current": mtbH, "echidna": in.Echidna, "problem": w.problem})
 				}
 			}
 			// Reset on the recovered (non-running) node, where the node allows it (chain shorter than MaxTraceableBlocks):
@@ -368,8 +387,14 @@ func c11RunGC(co *caseOut, in c11GCInput) {
 	if in.Echidna > 0 {
 		tag += "+echidna"
 	}
+	if in.gmtb() != in.MTB {
+		tag += "+window-shrinks-at-echidna"
+	}
 	if lowered {
 		tag += "+lowered"
+	}
+	if loweredInCache {
+		tag += "+lowering-in-cache-at-gc"
 	}
 	if cached {
 		tag += "+blocks-in-cache-at-gc"
@@ -377,7 +402,7 @@ func c11RunGC(co *caseOut, in c11GCInput) {
 	if collected {
 		tag += "+collected"
 	}
-	co.add(kind, tag, cached && collected, in, map[string]any{"height": bc.BlockHeight(), "gc_runs": len(runs)},
+	co.add(kind, tag, cached && collected, in, map[string]any{"height": bc.BlockHeight(), "gc_runs": len(runs), "lowering_block_in_cache_at_gc": loweredInCache},
 		fmt.Sprintf("CGcRuns %d %s", in.gcp(), coqList(runs)))
 }
 
@@ -392,6 +417,11 @@ func c11GenGC(r *rng) c11GCInput {
 			k++
 		}
 		in.Echidna = uint32(k)*in.GCP + 1
+		if in.MTB >= 3 && r.chance(50) {
+			// the Policy contract is initialised with a SHORTER window than the configuration holds: the window
+			// length changes exactly at E
+			in.GMTB = in.MTB - 1
+		}
 		for h := uint32(1); h <= in.Echidna+2+uint32(r.intn(3)); h++ {
 			in.Ops = append(in.Ops, pick(r, []string{"b", "t", "t"}))
 			if h+4 >= in.Echidna || r.chance(40) {
@@ -409,6 +439,13 @@ func c11GenGC(r *rng) c11GCInput {
 			op := pick(r, []string{"b", "t", "t"})
 			if h > int(in.MTB)+1 && r.chance(30) {
 				op = "s"
+			}
+			if op == "s" && h > int(in.MTB)+2 && r.chance(50) {
+				// the lowering block is accepted between the flush and the collection of one tick of Run: the
+				// collector sees the lowered value, the persistent store does not hold the lowering block yet
+				in.Ops = append(in.Ops, "t", "p", "s", "g")
+				h++
+				continue
 			}
 			in.Ops = append(in.Ops, op)
 			if h > int(in.MTB) {
